@@ -17,6 +17,8 @@ pub mod c13;
 pub mod c14;
 pub mod c15;
 pub mod c16;
+pub mod c17;
+pub mod c18;
 
 use crate::runner::Property;
 
@@ -38,6 +40,8 @@ pub fn get(id: &str) -> Option<Property> {
         "C14" => Some(c14::property()),
         "C15" => Some(c15::property()),
         "C16" => Some(c16::property()),
+        "C17" => Some(c17::property()),
+        "C18" => Some(c18::property()),
         _ => None,
     }
 }
